@@ -233,6 +233,20 @@ def fast_path_chars(model):
                 expr = n.value
             elif isinstance(n, ast.IfExp):
                 expr = n.test
+            elif isinstance(n, ast.For) and isinstance(n.target, ast.Name) \
+                    and fi.name != 'render_blocks_':
+                # for c in CHARS: if c in t: return True
+                ok, vals = model.fold(n.iter, fi)
+                if ok and isinstance(vals, (str, tuple, list)) and vals and \
+                        all(isinstance(x, str) and len(x) == 1
+                            for x in vals) and any(
+                        isinstance(c, ast.Compare) and len(c.ops) == 1 and
+                        isinstance(c.ops[0], ast.In) and
+                        isinstance(c.left, ast.Name) and
+                        c.left.id == n.target.id for c in ast.walk(n)):
+                    if best is None or len(set(vals)) > len(best[2]):
+                        best = (fi, n, set(vals))
+                continue
             if expr is None:
                 continue
             chars = _chars_in(model, fi, expr)
@@ -242,7 +256,7 @@ def fast_path_chars(model):
         raise AnalysisError('fast-path character test not found')
     fi, node, chars = best
     helper = None
-    if isinstance(node, ast.Return):
+    if isinstance(node, (ast.Return, ast.For)):
         helper = fi
         # the If that calls the helper
         caller = None
@@ -265,16 +279,18 @@ class _FS(BaseState):
     """Scenario state of the simple form: flag variables with known truth
     value, whether the escaper was called, whether the var branch runs."""
 
-    def __init__(self, env=None, quoted=False, invar=False):
+    def __init__(self, env=None, quoted=False, invar=False, entered=()):
         self.env = dict(env or {})
         self.quoted = quoted
         self.invar = invar
+        self.entered = frozenset(entered)   # constant loops iterated
 
     def key(self):
-        return (tuple(sorted(self.env.items())), self.quoted, self.invar)
+        return (tuple(sorted(self.env.items())), self.quoted, self.invar,
+                self.entered)
 
     def copy(self):
-        n = _FS(self.env, self.quoted, self.invar)
+        n = _FS(self.env, self.quoted, self.invar, self.entered)
         n.trace = self.trace
         return n
 
@@ -344,6 +360,9 @@ class _FastDomain(Domain):
                     isinstance(l.value, str) and len(l.value) == 1:
                 return self.p           # conservative: one char stands for
                                         # the whole tested set
+            if isinstance(op, ast.In) and isinstance(l, ast.Name) and \
+                    st.env.get('@loopvar:' + l.id):
+                return self.p           # for c in CHARS: if c in t
             if isinstance(op, (ast.Is, ast.IsNot)) and \
                     isinstance(r, ast.Constant) and r.value is None:
                 if isinstance(l, ast.Call) and \
@@ -361,7 +380,7 @@ class _FastDomain(Domain):
                         isinstance(r.value, int) and \
                         not isinstance(r.value, bool):
                     if isinstance(l, ast.Call) and norm(l.func) == 'len':
-                        return (r.value == 3) == pos
+                        return (r.value == self.blocklen) == pos
                     v = self.truth(l, st)
                     if v is None:
                         return None
@@ -375,6 +394,21 @@ class _FastDomain(Domain):
                 return None
             return self.truth(e.body if t else e.orelse, st)
         return None
+
+    def _const_loop(self, node):
+        ok, vals = self.model.fold(node.iter, self.fi)
+        return ok and isinstance(vals, (str, tuple, list)) and len(vals) > 0
+
+    def for_target(self, node, st):
+        if self._const_loop(node) and isinstance(node.target, ast.Name):
+            st = st.copy()
+            st.entered = st.entered | {id(node)}
+            st.env['@loopvar:' + node.target.id] = True
+        return st
+
+    def for_may_skip(self, node, st):
+        # a loop over a non-empty constant runs at least once
+        return not self._const_loop(node) or id(node) in st.entered
 
     def branch(self, test, st):
         v = self.truth(test, st)
@@ -390,7 +424,56 @@ class _FastDomain(Domain):
     def raises(self, node, st):
         return []
 
+    blocklen = 3
+    track = None
+
+    def _track(self, stmt, st):
+        if self.track is None or not st.invar:
+            return
+        v, nsname = self.track
+        if not (isinstance(stmt, ast.Assign) and
+                isinstance(stmt.targets[0], ast.Name) and
+                stmt.targets[0].id == v):
+            return
+        val = stmt.value
+        if not hasattr(self, 'rewrites'):
+            self.rewrites, self.followed, self.n_assign = [], [], 0
+        self.n_assign += 1
+        # the lookups themselves: NS[x], x(NS), block[1]
+        if isinstance(val, ast.Subscript) or (
+                isinstance(val, ast.Call) and len(val.args) == 1 and
+                norm(val.args[0]) == nsname and not val.keywords) or \
+                isinstance(val, (ast.Name, ast.Constant)):
+            return
+        # v = helper(v, ...): follow the value into the helper
+        if isinstance(val, ast.Call) and isinstance(val.func, ast.Name):
+            for t in self.model.resolve_callee(val.func, self.fi):
+                if t[0] == 'func' and t[1].module is self.fi.module:
+                    hp = t[1].params()
+                    for i, a in enumerate(val.args):
+                        if norm(a) == v and i < len(hp):
+                            self.followed.append((stmt, (t[1], hp[i],
+                                                         nsname)))
+                            return
+        self.rewrites.append(stmt)
+
     def effects(self, stmt, st):
+        if not hasattr(self, 'rewrites'):
+            self.rewrites, self.followed, self.n_assign = [], [], 0
+        self._track(stmt, st)
+        if self.track is not None and st.invar:
+            v, nsname = self.track
+            for c in ast.walk(stmt):
+                if isinstance(c, ast.Call) and isinstance(c.func, ast.Name) \
+                        and any(norm(a) == v for a in c.args):
+                    for t in self.model.resolve_callee(c.func, self.fi):
+                        if t[0] == 'func' and t[1].module is self.fi.module \
+                                and t[1] is not self.fi:
+                            hp = t[1].params()
+                            for i, a in enumerate(c.args):
+                                if norm(a) == v and i < len(hp):
+                                    self.followed.append(
+                                        (stmt, (t[1], hp[i], nsname)))
         ns = st
         for c in ast.walk(stmt):
             if isinstance(c, ast.Call) and \
@@ -571,81 +654,88 @@ def rule_identity(model):
                    'the output unchanged')
     rb = model.func('_DocumentTemplate', 'render_blocks_')
     # the value variable: assigned from md[...] subscripts
+    # the value variable: assigned from NS[...] and later handed to the
+    # converter ustr() -- in render_blocks_ or in a helper it was moved to
     var = None
-    params = rb.params()
-    ns = params[2] if len(params) > 2 else 'md'
-    for n in own_nodes(rb.node):
-        if isinstance(n, ast.Assign) and isinstance(n.value, ast.Subscript) \
-                and isinstance(n.targets[0], ast.Name) and \
-                norm(n.value.value) == ns and var is None:
-            var = n.targets[0].id
+    conv = model.func('ustr', 'ustr').where
+    home = rb
+    for f in model.closure(rb):
+        fps = f.params()
+        for n in own_nodes(f.node):
+            if isinstance(n, ast.Assign) and \
+                    isinstance(n.value, ast.Subscript) and \
+                    isinstance(n.targets[0], ast.Name) and \
+                    isinstance(n.value.value, ast.Name) and \
+                    n.value.value.id in fps and var is None:
+                cand = n.targets[0].id
+                if any(isinstance(c, ast.Call) and
+                       conv in model.callee_names(c, f) and c.args and
+                       norm(c.args[0]) == cand for c in own_nodes(f.node)):
+                    var, ns, home = cand, n.value.value.id, f
+    if var is None:
+        # the lookup stayed behind, the conversion moved to a helper: the
+        # variable assigned from NS[...] that is handed to that helper
+        helpers = {h.name for h in model.closure(rb) if h is not rb}
+        for f in model.closure(rb):
+            fps = f.params()
+            for n in own_nodes(f.node):
+                if isinstance(n, ast.Assign) and \
+                        isinstance(n.value, ast.Subscript) and \
+                        isinstance(n.targets[0], ast.Name) and \
+                        isinstance(n.value.value, ast.Name) and \
+                        n.value.value.id in fps and var is None:
+                    cand = n.targets[0].id
+                    if any(isinstance(c, ast.Call) and
+                           isinstance(c.func, ast.Name) and
+                           c.func.id in helpers and
+                           any(norm(a) == cand for a in c.args)
+                           for c in own_nodes(f.node)):
+                        var, ns, home = cand, n.value.value.id, f
     if var is None:
         raise AnalysisError('render_blocks_: value variable not found')
+    # scenario: a plain str value, two-element block (no quoting option).
+    # Interpret the code that renders one var block and collect every
+    # statement that rewrites the value variable on a feasible path.
+    _, fp_node, _, fp_helper = fast_path_chars(model)
+    rewrites = []
     n_assign = 0
-    todo = [(rb, var, ns)]
+    todo = [(home, var, ns)]
     done = set()
     while todo:
         fn, v, nsname = todo.pop()
         if (fn.where, v) in done:
             continue
         done.add((fn.where, v))
-        # the value handed to a helper of the same module
-        for c in own_nodes(fn.node):
-            if isinstance(c, ast.Call) and isinstance(c.func, ast.Name) and \
-                    any(norm(a) == v for a in c.args):
-                for t in model.resolve_callee(c.func, fn):
-                    if t[0] == 'func' and t[1].module is fn.module and \
-                            t[1] is not fn:
-                        hp = t[1].params()
-                        for i, a in enumerate(c.args):
-                            if norm(a) == v and i < len(hp):
-                                todo.append((t[1], hp[i], nsname))
-        for n in own_nodes(fn.node):
-            if not (isinstance(n, ast.Assign) and
-                    isinstance(n.targets[0], ast.Name) and
-                    n.targets[0].id == v):
-                continue
-            if isinstance(n.value, ast.Subscript) or (
-                    isinstance(n.value, ast.Call) and
-                    isinstance(n.value.func, ast.Name) and
-                    len(n.value.args) == 1 and
-                    norm(n.value.args[0]) == nsname):
-                continue          # the lookups themselves
-            # v = helper(v, ...): follow the value into the helper
-            if isinstance(n.value, ast.Call) and \
-                    isinstance(n.value.func, ast.Name):
-                followed = False
-                for t in model.resolve_callee(n.value.func, fn):
-                    if t[0] == 'func' and t[1].module is fn.module:
-                        hp = t[1].params()
-                        for i, a in enumerate(n.value.args):
-                            if norm(a) == v and i < len(hp):
-                                todo.append((t[1], hp[i], nsname))
-                                followed = True
-                if followed:
-                    continue
-            n_assign += 1
-            guards = []
-            prev = n
-            for a in ancestors(n):
-                if isinstance(a, ast.If):
-                    if any(prev is x for x in a.body):
-                        guards.append(norm(a.test))
-                    else:
-                        guards.append('not (' + norm(a.test) + ')')
-                if isinstance(a, (ast.For, ast.FunctionDef)):
-                    break
-                prev = a
-            ok = any(g.startswith('not isinstance(' + v) or
-                     'len(block) == 3' in g or 'untaintmethod' in g
-                     for g in guards)
-            r.instance(fn.where, n, 'guarded: ' + ' & '.join(guards[:2]))
-            if not ok:
-                r.finding(fn.where, n, f'the value `{v}` is rewritten on '
-                          'the plain insertion path (no quoting option, str '
-                          'value)', node=n, ctx=fn)
-    if n_assign < 2:
-        raise AnalysisError('render_blocks_: value rewrites not found')
+        dom = _FastDomain(model, fn, False, fp_helper)
+        dom.blocklen = 2
+        dom.track = (v, nsname)
+        loops = [n for n in own_nodes(fn.node) if isinstance(n, ast.For)
+                 and any(isinstance(x, ast.Assign) and
+                         isinstance(x.targets[0], ast.Name) and
+                         x.targets[0].id == v for x in ast.walk(n))]
+        if loops and fn is rb:
+            body, start = loops[0].body, _FS()
+        else:
+            body, start = fn.node.body, _FS(invar=True)
+        Interp(dom).block(body, start)
+        n_assign += dom.n_assign
+        for st_, callee in dom.followed:
+            todo.append(callee)
+        for st_ in dom.rewrites:
+            rewrites.append((fn, v, st_))
+    seen = set()
+    for fn, v, st_ in rewrites:
+        if id(st_) in seen:
+            continue
+        seen.add(id(st_))
+        r.finding(fn.where, st_, f'the value `{v}` is rewritten on '
+                  'the plain insertion path (no quoting option, str '
+                  'value)', node=st_, ctx=fn)
+    r.instance(home.where, f'value variable `{var}`',
+               f'{n_assign} assignment(s) on the plain path, '
+               f'{len(seen)} rewrite(s)')
+    if n_assign < 1:
+        raise AnalysisError('render_blocks_: value assignments not found')
     return r
 
 
